@@ -6,6 +6,7 @@ of the .pxd/.h/.pyx files the generated code is compiled against.
 See DESIGN.md section 2.1.
 """
 import fcntl
+import glob
 import hashlib
 import os
 import shutil
@@ -84,6 +85,30 @@ def _prune(keep):
                 shutil.rmtree(d, ignore_errors=True)
 
 
+def prune_code_cache(home, min_age=1800):
+    """The code cache keeps, next to every generated extension module, its
+    C++ source and a distutils build tree with object files and a second
+    copy of the module (3-4x the size of what is needed to reload it).
+    Remove those that are older than `min_age` seconds (a build in progress
+    in another process still needs its own)."""
+    now = time.time()
+    for root in glob.glob(os.path.join(home, '.pysph', 'source', '*')):
+        for path in glob.glob(os.path.join(root, 'm_*.cpp')):
+            try:
+                if now - os.stat(path).st_mtime > min_age:
+                    os.remove(path)
+            except OSError:
+                pass
+        for dp, dn, fn in os.walk(os.path.join(root, 'build')):
+            for f in fn:
+                sub = os.path.join(dp, f)
+                try:
+                    if now - os.stat(sub).st_mtime > min_age:
+                        os.remove(sub)
+                except OSError:
+                    pass
+
+
 def ensure_built(verbose=False):
     """Returns (work_tree, home_dir).  Safe to call concurrently."""
     os.makedirs(CACHE, exist_ok=True)
@@ -151,21 +176,62 @@ def activate():
 
 
 def _patch_compyle_lock():
-    """compyle's per-module build lock gives up after 90 s and then lets
-    two processes build (and unlock) the same module; with 16 workers
-    compiling identical sources that is easily exceeded.  Wait longer."""
+    """compyle's per-module build lock is a directory that (a) is given up
+    on after 90 s, after which two processes build the same module, and (b)
+    stays behind when a process dies while building, stalling every later
+    build of that module.  The harness runs 16 workers that compile
+    identical sources and kills workers on time-outs, so the lock is
+    replaced (in the harness processes only) by an flock on a side file:
+    it is released by the kernel when its holder exits."""
     try:
         from compyle import ext_module
     except Exception:
         return
-    orig = ext_module.ExtModule._lock
-    if getattr(orig, '_verif_patched', False):
+    if getattr(ext_module.ExtModule._lock, '_verif_patched', False):
         return
+    import contextlib
+    import fcntl
 
-    def _lock(self, timeout=3600):
-        return orig(self, timeout)
+    @contextlib.contextmanager
+    def _lock(self, timeout=None):
+        fd = os.open(self.lock_path + 'f', os.O_CREAT | os.O_RDWR, 0o644)
+        try:
+            fcntl.flock(fd, fcntl.LOCK_EX)
+            yield
+        finally:
+            try:
+                fcntl.flock(fd, fcntl.LOCK_UN)
+            finally:
+                os.close(fd)
     _lock._verif_patched = True
     ext_module.ExtModule._lock = _lock
+    orig_wb = ext_module.ExtModule.write_and_build
+
+    def write_and_build(self):
+        # another process may have finished the build while we waited
+        if not os.path.exists(self.ext_path):
+            with self._lock():
+                if not os.path.exists(self.ext_path):
+                    self._write_source(self.src_path)
+                    self.build()
+    write_and_build._verif_patched = True
+    ext_module.ExtModule.write_and_build = write_and_build
+
+    # the built module is copied into the cache with shutil.copy while other
+    # processes test for its existence without the lock: make it atomic
+    import shutil as _sh
+
+    class _AtomicShutil(object):
+        def __getattr__(self, name):
+            return getattr(_sh, name)
+
+        @staticmethod
+        def copy(src, dst):
+            tmp = '%s.tmp%d' % (dst, os.getpid())
+            _sh.copy(src, tmp)
+            os.replace(tmp, dst)
+            return dst
+    ext_module.shutil = _AtomicShutil()
 
 
 if __name__ == '__main__':
